@@ -104,7 +104,7 @@ Definition vec_grow (cap : N) (m : mem) (v : vecst) (add : N) : res * mem * vecs
   if add <=? vcap v - vlen v then (ROk, m, v, [])
   else if USIZE_MAX <? vlen v + add then (ROom, m, v, [])
   else let required := vlen v + add in
-       let amortised := N.max required (N.max (2 * vcap v) 4) in
+       let amortised := N.max required (N.max (VEC_GROWTH_FACTOR * vcap v) VEC_MIN_CAP) in
        let bytes_of (nc : N) := (nc - vcap v) * velem v in
        let finish (nc : N) :=
          if host_ok cap (nc * velem v)
